@@ -70,10 +70,6 @@ def generate(ctx):
     return cs
 
 
-def extra(ctx, obl):
-    pass
-
-
 def post_go(ctx, cases, obs):
     """Generator-side oracle for the plain reader on valid layouts."""
     bad = []
